@@ -20,29 +20,10 @@ ObsArgs(o) == SeqToSet(o.args)
 
 \* ------------------------------------------------------------------ C03
 Judge03(c, ln) ==
-  LET p == Norm(ln.path)
-      e == Expected(c.rules, c.map, p, ln.method)
-      o == ln.r
-      root == Root(c.bind.script)
-  IN IF OutOfDomain(c.rules, c.map, ln.path) THEN "ok"
-     ELSE CASE o.kind = "match" ->
-                 IF o.rule \in 1..Len(c.rules) /\ Len(o.args) = Cardinality(ObsArgs(o))
-                    /\ MatchOut(o.rule, ObsArgs(o)) \in e.outs THEN "ok"
-                 ELSE IF \E cd \in Cands(c.rules, c.map, p) :
-                           cd.r = o.rule /\ cd.args = ObsArgs(o) /\ MethodOK(c.rules[cd.r], ln.method)
-                      THEN "Priority"
-                 ELSE "MatchNotAdmitted"
-            [] o.kind = "redirect" ->
-                 LET u == SplitUrl(o.url) IN
-                 IF \E x \in e.outs : x.kind = "redirect" /\ u.path = UrlPathFor(root, x.path) THEN "ok"
-                 ELSE "Redirect"
-            [] o.kind = "notfound" ->
-                 IF e.nf THEN "ok" ELSE IF e.outs # {} THEN "NotFoundButAdmitted" ELSE "NotFoundButMethodNotAllowed"
-            [] o.kind = "mna" ->
-                 LET ms == SeqToSet(o.methods) IN
-                 IF ~e.mna THEN "SpuriousMethodNotAllowed"
-                 ELSE IF e.mreq \subseteq ms /\ ms \subseteq e.mall THEN "ok" ELSE "AllowedMethods"
-            [] OTHER -> "UnexpectedException"
+  LET o == ln.r IN
+  JudgeOutcome(c.rules, c.map, Root(c.bind.script), ln.path, ln.method,
+               [kind |-> o.kind, rule |-> o.rule, args |-> ObsArgs(o), argc |-> Len(o.args),
+                upath |-> SplitUrl(o.url).path, methods |-> SeqToSet(o.methods)])
 
 \* ------------------------------------------------------------------ C12
 Hops(ln) == <<[path |-> ln.path, r |-> ln.r]>> \o ln.follow
